@@ -39,13 +39,22 @@ Proof.
 Qed.
 
 (* ------------------------------------------------------------------ the reported objective *)
-(* get_objective_value = plain sum of the error variables; it is the solver objective when no
-   non-ignored edge has a scaling different from 1 *)
-Theorem klae_reported_objective_unscaled I a :
-  (forall e, In e (basic_edges I) -> (scale_of I e == 1)%Q) ->
+(* get_objective_value (current code: errors weighed by their scaling) IS the solver objective, for
+   every scaling and every assignment *)
+Theorem klae_reported_objective I a :
   (klae_reported_objective_code I a == objective a (encode_klae I))%Q.
 Proof.
-  intros H. unfold klae_reported_objective_code, objective, encode_klae. cbn [obj]. unfold klae_obj.
+  unfold klae_reported_objective_code, objective, encode_klae. cbn [obj]. unfold klae_obj.
+  rewrite (eval_map_coef a (fun e => Err (fst e) (snd e)) (scale_of I)).
+  apply sumq_ext. intros e _. ring.
+Qed.
+
+(* the old behaviour (plain sum) agreed with the solver objective only when no scaling differs from 1 *)
+Theorem klae_reported_objective_old_unscaled I a :
+  (forall e, In e (basic_edges I) -> (scale_of I e == 1)%Q) ->
+  (klae_reported_objective_old I a == objective a (encode_klae I))%Q.
+Proof.
+  intros H. unfold klae_reported_objective_old, objective, encode_klae. cbn [obj]. unfold klae_obj.
   rewrite (eval_map_coef a (fun e => Err (fst e) (snd e)) (scale_of I)).
   apply sumq_ext. intros e He. rewrite (H e He). ring.
 Qed.
@@ -90,10 +99,10 @@ Definition wit12_a (v : var) : Q :=
 Ltac split_forall H :=
   repeat (apply Forall_cons_iff in H; let H1 := fresh "R" in destruct H as [H1 H]).
 
-Theorem klae_objective_refuted : exists I a,
+Theorem klae_objective_old_refuted : exists I a,
   sat a (encode_klae I) /\
   (forall b, sat b (encode_klae I) -> (objective a (encode_klae I) <= objective b (encode_klae I))%Q) /\
-  ~ (klae_reported_objective_code I a == objective a (encode_klae I))%Q.
+  ~ (klae_reported_objective_old I a == objective a (encode_klae I))%Q.
 Proof.
   exists wit12, wit12_a. split; [|split].
   - apply sat_b_sound. vm_compute. reflexivity.
@@ -178,3 +187,52 @@ Definition wit_kmpe_a (w s len : Q) (slack_bits : list Q) (v : var) : Q :=
   else 0%Q.
 Lemma kmpe_factor_one_satisfiable : sat (wit_kmpe_a 1%Q 1%Q 4%Q [1%Q]) (encode_kmpe (wit_kmpe 1%Q 1%Q)).
 Proof. apply sat_b_sound. vm_compute. reflexivity. Qed.
+
+(* ------------------------------------------------------------------ is_valid_solution of kMinPathError *)
+(* the per-edge test of kMinPathError.is_valid_solution as the code computes it (since /repo 43fc741):
+   accept iff  |f - explained| * scale <= tolerance * (#layers through e) + (scaled) slack through e *)
+Definition kmpe_valid_edge_code (M : kmpe_inst) (a : var -> Q) (tol : Q) (e : PathEnc.edge) : Prop :=
+  let I := m_err M in let k := eK I in
+  (Qabs (flow_of I e - sumq (fun i => a (W i) * inject_Z (xval a i e)) (layers k)) * scale_of I e
+   <= tol * sumq (fun i => inject_Z (xval a i e)) (layers k)
+      + sumq (fun i => a (slack_var M i) * inject_Z (xval a i e)) (layers k))%Q.
+(* before 43fc741 the error was not multiplied by the scaling *)
+Definition kmpe_valid_edge_old (M : kmpe_inst) (a : var -> Q) (tol : Q) (e : PathEnc.edge) : Prop :=
+  let I := m_err M in let k := eK I in
+  (Qabs (flow_of I e - sumq (fun i => a (W i) * inject_Z (xval a i e)) (layers k))
+   <= tol * sumq (fun i => inject_Z (xval a i e)) (layers k)
+      + sumq (fun i => a (slack_var M i) * inject_Z (xval a i e)) (layers k))%Q.
+
+Lemma xval_nonneg a i e : (0 <= inject_Z (xval a i e))%Q.
+Proof. unfold xval. destruct (Qeq_bool (a (Edge (fst e) (snd e) i)) 1); [change (inject_Z 1) with 1%Q|change (inject_Z 0) with 0%Q]; lra. Qed.
+
+Lemma sumq_nonneg' {A} (g : A -> Q) l : (forall x, (0 <= g x)%Q) -> (0 <= sumq g l)%Q.
+Proof. intros H. induction l as [|x l IH]; cbn [sumq]; [lra|]. specialize (H x). lra. Qed.
+
+(* every satisfying assignment passes the validity test of the current code, for every tolerance >= 0 *)
+Theorem kmpe_is_valid_accepts (M : kmpe_inst) (a : var -> Q) (tol : Q) (e : PathEnc.edge) :
+  sat a (encode_kmpe M) -> e_given (m_err M) = None -> (0 <= tol)%Q ->
+  In e (basic_edges (m_err M)) -> (0 <= scale_of (m_err M) e)%Q ->
+  kmpe_valid_edge_code M a tol e.
+Proof.
+  intros Hsat Hg Ht He Hs. unfold kmpe_valid_edge_code. cbv zeta.
+  destruct (kmpe_error_covered M a Hsat Hg e He) as [H _].
+  rewrite Qabs_Qmult, (Qabs_pos (scale_of (m_err M) e) Hs) in H.
+  assert (N : (0 <= sumq (fun i => inject_Z (xval a i e)) (layers (eK (m_err M))))%Q)
+    by (apply sumq_nonneg'; intros i; apply xval_nonneg).
+  assert (TN : (0 <= tol * sumq (fun i => inject_Z (xval a i e)) (layers (eK (m_err M))))%Q) by nra.
+  lra.
+Qed.
+
+(* ... whereas the old test rejected satisfying (indeed optimal) assignments when a scaling < 1 is in
+   force: path a->b->c, f = (2, 0), scaling 1/2 on (b,c), weight 2, slack 1 *)
+Definition wit_kmpe_scaled : kmpe_inst := {| m_err := wit12; m_len := None; m_pieces := [] |}.
+Theorem kmpe_is_valid_old_refuted : exists M a e,
+  sat a (encode_kmpe M) /\ In e (basic_edges (m_err M)) /\ (0 <= scale_of (m_err M) e)%Q /\
+  kmpe_valid_edge_code M a 0%Q e /\ ~ kmpe_valid_edge_old M a 0%Q e.
+Proof.
+  exists wit_kmpe_scaled, (wit_kmpe_a 2%Q 1%Q 4%Q []), (2, 3)%N.
+  split; [apply sat_b_sound; vm_compute; reflexivity|].
+  split; [vm_compute; tauto|]. split; [vm_compute; discriminate|].
+  split; [vm_compute; discriminate|]. vm_compute. intros H. apply H. reflexivity.
+Qed.
